@@ -603,7 +603,8 @@ class Streams:
             except Unsupported:
                 continue
             except Exception as ex:
-                self.c.count('container-gen-skipped:' + type(ex).__name__); continue
+                self.tick('corr:containers')
+                self.fail('corr:containers', 'container-raises', 'a valid container expression raises %s: %s' % (type(ex).__name__, str(ex)[:100]), dict(op='containers', expr=repr(e)[:500])); continue
             # der table for every reference met
             closure = set(self.seen_refs)
             for r in list(closure):
@@ -619,9 +620,12 @@ class Streams:
             def h(ans, line, real=real, want=want, q=q, unsorted=unsorted):
                 ob = 'corr:containers'
                 self.tick(ob); self.c.case(('alg', q), nontrivial=len(want) > 0)
-                got = list(real)
-                gets = [real.get(i) for i in range(len(real))]
                 shape = self.container_shape(real)
+                try:
+                    got = list(real)
+                    gets = [real.get(i) for i in range(len(real))]
+                except Exception as ex:
+                    self.fail(ob, 'container-raises', 'References iteration / get raises %s: %s' % (type(ex).__name__, str(ex)[:100]), dict(op='containers', expr=q, real_shape=shape)); return
                 self.c.count('container:' + shape.split('(')[0])
                 replay = dict(op='containers', expr=q, real_shape=shape, model=ans)
                 # specification oracle: the python lists
@@ -672,9 +676,13 @@ class Streams:
             try:
                 s, want, unsorted = gen(rng.choice([1, 2]), rng.randint(1, 4))
             except Exception as ex:
-                self.c.count('pointsseq-gen-skipped:' + type(ex).__name__); continue
+                self.tick(ob)
+                self.fail(ob, 'container-raises', 'a valid PointsSequence expression raises %s: %s' % (type(ex).__name__, str(ex)[:100]), dict(op='pointsseq')); continue
             self.tick(ob); self.c.case(('pts', k, len(want)), nontrivial=len(want) > 0)
-            got = list(s); gets = [s.get(i) for i in range(len(s))]
+            try:
+                got = list(s); gets = [s.get(i) for i in range(len(s))]
+            except Exception as ex:
+                self.fail(ob, 'container-raises', 'PointsSequence iteration / get raises %s: %s' % (type(ex).__name__, str(ex)[:100]), dict(op='pointsseq', n=len(want), shape=type(s).__name__)); continue
             ok = len(s) == len(want) == len(got) and all(same(a, b) for a, b in zip(got, want)) and all(same(a, b) for a, b in zip(gets, want)) and s.npoints == sum(p.npoints for p in want)
             if not ok:
                 if unsorted: self.fail(ob, 'container-take:chain-unsorted-indices', 'PointsSequence: take with indices not sorted across a chain boundary returns the wrong order', dict(op='pointsseq', n=len(want)))
